@@ -47,6 +47,20 @@ func runC12(c *Ctx) {
 	c.Explain = "E1 on the six Core.doAPIConfig* handlers (non-nil result ⇒ edit nil ∧ Validate nil, on a Clone of the loaded conf, returned as is); E1 on Core.run (reloadConf(x) ⇒ x is the handler result ∧ err == nil, reply sent before); E2: Core.conf.Store callers = {New, reloadConf}; E5: no store / mutating-method call whose target derives from Core.conf.Load() or APIConfigSnapshot() without Clone, anywhere in the module; E1 on AddPath/PatchPath/RemovePath/ReplacePath. Not decided: which fields copyStructFields copies (reflective, value level)."
 	c.Assume = []string{"Conf.Clone is a deep copy (C11)", "copyStructFields copies exactly the non-nil fields of its source"}
 
+	// "a rejected edit leaves the running configuration unchanged" rests on Clone()
+	// being a deep copy: the clone-independence obligations of C11 are therefore
+	// obligations of C12 too (same rules, re-evaluated here under C12 rule ids).
+	{
+		sub := newCtx(c.Prop, c.Tier, c.Seed)
+		sub.progs, sub.overlay, sub.quiet, sub.curCfg = c.progs, c.overlay, true, c.curCfg
+		runC11(sub)
+		for _, o := range sub.Obls {
+			o.Rule = "C12.clone_independent." + strings.TrimPrefix(o.Rule, "C11.")
+			c.Obls = append(c.Obls, o)
+		}
+		c.undecided = append(c.undecided, sub.undecided...)
+	}
+
 	type h struct{ name, edit string; hasErr bool }
 	hs := []h{
 		{"doAPIConfigGlobalPatch", "(*conf.Conf).PatchGlobal", false},
